@@ -19,7 +19,9 @@
      D1  routing activation request carries exactly the configured source address, activation type
          and protocol version; connect succeeds iff the response code is success (0x10)
      D2  reads deliver exactly the user data of Diag(target -> source) frames, in order, unmodified
-     D3  frames other than the awaited one are not lost for later reads
+     D3  frames other than the awaited one are not lost for later reads -- also not by the client giving up the
+         connection on its own: a message for us that was completely delivered stays readable unless the
+         connection ended for a reason the statement names (a write that failed / is pending) or leaves open
      D4  a write completes iff the gateway acknowledged that message (Nack TargetUnreachable
          tolerated), otherwise fails with a connection error within the acknowledgement time
      D5  every alive-check request is answered within the alive-check time, whatever the client does
@@ -39,6 +41,8 @@ TargetUnreachable == 6
 M0 == [sent |-> <<>>, ndel |-> 0, alive |-> <<>>, op |-> "none", t0 |-> 0, tmo |-> -1, d |-> <<>>,
        decisive |-> "none", wrote |-> FALSE, unspec |-> FALSE, unspecNext |-> FALSE,
        closedAt |-> -1, rr |-> -1, lastFail |-> [t0 |-> -1, d |-> <<>>, on |-> FALSE], fail |-> "ok",
+       \* wfail: a write/connect of the caller has ended in failure; selfClosed: the client closed without cause
+       wfail |-> FALSE, selfClosed |-> FALSE,
        \* a read issued by ANOTHER task of the caller and still pending (op "bgread"); at most one
        bg |-> [on |-> FALSE, t0 |-> 0, tmo |-> -1]]
 
@@ -100,7 +104,10 @@ EndReadG(c, m, e, t0, tmo) ==
          ELSE IF tmo = -1 \/ e.t < t0 + tmo THEN Fail(m, "read/timeout-before-the-caller-deadline")
          ELSE m
     [] e.res = "ConnErr" ->
-         IF m.closedAt # -1 THEN m ELSE Fail(m, "D2/read-failed-on-an-open-connection")
+         IF m.closedAt = -1 THEN Fail(m, "D2/read-failed-on-an-open-connection")
+         ELSE IF m.selfClosed /\ m.ndel < Len(m.sent)
+         THEN Fail(m, "D3/message-for-us-lost-the-client-closed-the-connection-without-cause")
+         ELSE m
     [] OTHER -> Fail(m, "read/unexpected-exception")
 
 EndRead(c, m, e) == EndReadG(c, m, e, m.t0, m.tmo)
@@ -140,7 +147,16 @@ OnEnd(c, m, e) ==
               [] e.op = "write" -> EndWrite(c, m, e)
               [] e.op = "connect" -> EndConnect(c, m, e)
               [] OTHER -> m
-  IN [m1 EXCEPT !.op = "none"]
+  IN [m1 EXCEPT !.op = "none", !.wfail = (@ \/ (e.op \in {"write", "connect"} /\ e.res # "ok"))]
+
+\* The client closes its socket.  The statement names one reason for a connection to end: a write that is not
+\* acknowledged (fails with a connection error); results after stale acknowledgements / a header NACK are left open.
+\* A close while none of these applies (no write or connect pending, none failed before, nothing unspecified) is the
+\* client's own doing: whatever was delivered for us before must not be lost by it (judged when a read fails).
+OnClosed(c, m, e) ==
+  IF m.closedAt # -1 THEN m
+  ELSE [m EXCEPT !.closedAt = e.t,
+                 !.selfClosed = ~(m.op \in {"write", "connect"} \/ m.wfail \/ m.unspec \/ m.unspecNext)]
 
 OnFinal(c, m, e) ==
   IF \E i \in 1..Len(m.alive) : m.alive[i] <= e.t /\ (m.closedAt = -1 \/ m.closedAt > m.alive[i])
@@ -159,7 +175,7 @@ Step(c, m, e) ==
     [] e.e = "Out"    -> OnOut(c, m, e.t, e.f)
     [] e.e = "Begin"  -> OnBegin(c, m, e)
     [] e.e = "End"    -> OnEnd(c, m, e)
-    [] e.e = "Closed" -> IF m.closedAt = -1 THEN [m EXCEPT !.closedAt = e.t] ELSE m
+    [] e.e = "Closed" -> OnClosed(c, m, e)
     [] e.e = "Final"  -> OnFinal(c, m, e)
     [] OTHER          -> Fail(m, "trace/unknown-event")
 =============================================================================
